@@ -43,6 +43,10 @@ def dx_text(case):
             out.append("delta %e %e %e" % DELTAS[k])
         elif k == "object2":
             out.append(f"object 2 class gridconnections counts {s['nx']} {s['ny']} {s['nz']}")
+            if (s["nx"] + 2 * s["ny"] + s["nz"]) % 3 == 0:
+                # attribute records may follow any object, not only the last one
+                out.append('attribute "element type" string "cubes"')
+                out.append('attribute "ref" string "positions"')
         elif k == "object3":
             out.append(f"object 3 class array type double rank 0 items {n} data follows")
         elif k == "data":
@@ -59,8 +63,9 @@ def dx_text(case):
 
 
 def pqr_text(natoms, style=0):
-    """style: 0 plain, 1 TER/END at the end, 2 concatenated files (TER and END between the atoms, HETATM for the last)"""
-    out = ["REMARK   1 generated"]
+    """style: 0 plain, 1 TER/END at the end, 2 concatenated files (TER and END between the atoms, HETATM for the last),
+    3 no header line at all (the first line is an atom)"""
+    out = ["REMARK   1 generated"] if style != 3 else []
     for i in range(1, natoms + 1):
         ser, q, x, y, z = atom_fields(i)
         rec = "HETATM" if (style == 2 and i == natoms) else "ATOM  "
@@ -124,9 +129,9 @@ def _work(args):
         s = c["shape"]
         n = s["nx"] * s["ny"] * s["nz"]
         open(base + ".dx", "w").write(dx_text(c))
-        open(base + ".pqr", "w").write(pqr_text(s["natoms"], style=(s["nx"] + s["ny"] + s["nz"] + s["row"]) % 3))
+        open(base + ".pqr", "w").write(pqr_text(s["natoms"], style=(s["nx"] + s["ny"] + s["nz"] + s["row"]) % 4))
         try:
-            if (n + s["natoms"]) % 4 == 0:
+            if (n + s["natoms"]) % 3 == 0:
                 # the dx2cube console entry point (main.dx_to_cube) on the same files
                 import sys
                 import pdb2pqr.main as pmain
